@@ -36,8 +36,8 @@ Proof.
     + eapply Forall_impl; [|exact Yp]. intros [k v]; cbn [fst snd]. now rewrite lower_idem.
   - unfold xml_ok, yaml_ok in *. cbn [map_ids wd_entries]. rewrite Forall_map. eapply Forall_impl; [|exact Y].
     intros e (Yf & Yp). split; cbn [map_ids_entry we_fields we_persons]; rewrite Forall_map.
-    + eapply Forall_impl; [|exact Yf]. intros [k v]; cbn [fst snd]. tauto.
-    + eapply Forall_impl; [|exact Yp]. intros [k v]; cbn [fst snd]. tauto.
+    + eapply Forall_impl; [|exact Yf]. intros [k v]; cbn [fst snd]. rewrite lower_idem. tauto.
+    + eapply Forall_impl; [|exact Yp]. intros [k v]; cbn [fst snd]. rewrite lower_idem. tauto.
 Qed.
 
 Lemma chain_rest_trees enc pc : forall fs d, Forall (fun f => f <> FBib) fs -> tree_ok d ->
